@@ -709,7 +709,7 @@ def seqStep (tg : Target) (isM : Bool) (repl : Nat) (ms : MS) : Step → MS × R
           | .returns gs => wReturns tg.sig w0 gs 0
           | _ => (w0, pure ())
         match filled with
-        | (w1, .error e) => ({ ms with when := some w1 }, .error e)     -- m.when is already set, nothing applied
+        | (_, .error e) => (ms, .error e)     -- validation happens before m.whens (fix dead80f): the mocker keeps no unapplied When
         | (w1, .ok _) =>
           match applyByFunc ms.g tg (.fn tg.sig) .none repl with
           | (g1, .error e) => ({ ms with g := g1, when := some w1 }, .error e)
